@@ -1232,7 +1232,7 @@ def error_cases(ctx):
 def run(ctx):
     jobs = corpus_jobs()
     ctx.oblige(f"corpus: the {len(WITNESSES)} witness APIs of corpus/C05 are present", len(jobs) >= len(WITNESSES), f"{len(jobs)} found", "build")
-    n = ctx.n(7, 120)
+    n = ctx.n(5, 120)
     shapes = ["same", "dep", "sub"]
     made = 0
     i = 0
